@@ -18,7 +18,9 @@ Inductive inp :=
 | IRoundTrip (arg fmt : bytes) (off : Z) (abbr : bytes) (names : list (bytes * Z)) (locoff finoff : Z)
 | IReformat (str fmt : bytes) (names : list (bytes * Z)) (locoff finoff : Z) (fmt2 : bytes) (off : Z) (abbr : bytes)
 | IDurRT (arg : bytes)
-| IDurRF (s : bytes).
+| IDurRF (s : bytes)
+(* {timeattr {time {0} F Z} A Z} *)
+| IAttrTime (str fmt : bytes) (names : list (bytes * Z)) (locoff finoff : Z) (attr : bytes) (off : Z).
 
 Definition hexnames (l : list (string * Z)) : list (bytes * Z) := map (fun p => (unhex (fst p), snd p)) l.
 
@@ -37,6 +39,8 @@ Definition crt (arg fmt : string) (off : Z) (abbr : string) (names : list (strin
   (IRoundTrip (unhex arg) (unhex fmt) off (unhex abbr) (hexnames names) locoff finoff, unhex out).
 Definition cft (str fmt : string) (names : list (string * Z)) (locoff finoff : Z) (fmt2 : string) (off : Z) (abbr out : string) : inp * bytes :=
   (IReformat (unhex str) (unhex fmt) (hexnames names) locoff finoff (unhex fmt2) off (unhex abbr), unhex out).
+Definition cat (str fmt : string) (names : list (string * Z)) (locoff finoff : Z) (attr : string) (off : Z) (out : string) : inp * bytes :=
+  (IAttrTime (unhex str) (unhex fmt) (hexnames names) locoff finoff (unhex attr) off, unhex out).
 Definition cdr (arg out : string) : inp * bytes := (IDurRT (unhex arg), unhex out).
 Definition cdf (s out : string) : inp * bytes := (IDurRF (unhex s), unhex out).
 
@@ -52,6 +56,7 @@ Definition model (i : inp) : bytes :=
   | IReformat str fmt names lo fo fmt2 off abbr => kf_timeformat (kf_time str fmt names lo fo) fmt2 off abbr
   | IDurRT a => kf_duration (kf_durationformat a)
   | IDurRF s => kf_durationformat (kf_duration s)
+  | IAttrTime str fmt names lo fo attr off => kf_timeattr (kf_time str fmt names lo fo) attr off
   end.
 
 Definition oeqb (a b : bytes) : bool := bytes_eqb a b.
@@ -87,6 +92,13 @@ Definition check (i : inp) (o : bytes) : bool :=
       | None => true
       end
   | IDurRF s => bytes_eqb (kf_durationformat (kf_duration s)) o
+  | IAttrTime str fmt names lo fo attr off =>
+      bytes_eqb (kf_timeattr (kf_time str fmt names lo fo) attr off) o &&
+      (* unparseable text never yields an attribute: the marker of `time` is not an integer *)
+      match parse_layout (named_format fmt) str with
+      | None => bytes_eqb o (if existsb (bytes_eqb (upper attr)) timeAttrKeys then timeErrorNum else compile_error)
+      | Some _ => C18_check_attr (kf_time str fmt names lo fo) attr off o
+      end
   end.
 
 (* a case = one compiled expression evaluated on a sequence of inputs (singleton for the ordinary cases):
